@@ -33,7 +33,15 @@ def model_entry(data):
 def rand_shape(rnd):
     if rnd.random() < 0.5:
         x, y = round(rnd.uniform(0, 50), 1), round(rnd.uniform(0, 50), 1)
-        return ("rect", [x, y, x + round(rnd.uniform(0, 20), 1), y + round(rnd.uniform(0, 20), 1)])
+        w, h = round(rnd.uniform(0, 20), 1), round(rnd.uniform(0, 20), 1)
+        q = rnd.random()
+        if q < 0.08:
+            w = 0.0          # a segment: no area, but its points are excluded (closed set)
+        elif q < 0.16:
+            h = 0.0
+        elif q < 0.19:
+            w = h = 0.0
+        return ("rect", [x, y, x + w, y + h])
     r = round(rnd.uniform(0, 12), 1)
     if rnd.random() < 0.06:
         r = -r           # the API does not validate geometry: a negative radius is an empty region
@@ -90,8 +98,22 @@ class C13(Monitor):
                     ids.append(rid)
             elif t < 0.35 and ids:
                 steps.append(["api", "addExcludeRegion", payload_of(rand_shape(rnd), rnd.choice(ids)), anon])
-            elif t < 0.5 and ids:
+            elif t < 0.45 and ids:
                 steps.append(["api", "updateExcludeRegion", payload_of(rand_shape(rnd), rnd.choice(ids)), anon])
+            elif t < 0.5:
+                # a point-shaped region replaced by the other type at the very same point (each "contains" the other), and an
+                # update that repeats the entry verbatim
+                n += 1
+                rid = "pt%d" % n
+                x, y = float(rnd.randint(0, 40)), float(rnd.randint(0, 40))
+                a, b = ("rect", [x, y, x, y]), ("circ", [x, y, 0.0])
+                if rnd.random() < 0.5:
+                    a, b = b, a
+                steps.append(["api", "addExcludeRegion", payload_of(a, rid), False])
+                steps.append(["api", "updateExcludeRegion", payload_of(b, rid), False])
+                if rnd.random() < 0.5:
+                    steps.append(["api", "updateExcludeRegion", payload_of(b, rid), False])
+                ids.append(rid)
             elif t < 0.57:
                 steps.append(["api", "updateExcludeRegion", payload_of(rand_shape(rnd), rnd.choice(["nope", "id999", None])), anon])
             elif t < 0.64:
@@ -254,9 +276,28 @@ class C13(Monitor):
 DELTAS = [0.0, 0.0, 2.0 ** -44, -(2.0 ** -44), 1e-9, -1e-9, 1e-3, -1e-3, 1.0, -1.0]
 
 
+NONFINITE = [float("nan"), float("inf"), float("-inf")]
+
+
+def finite_shape(shape):
+    return all(math.isfinite(v) for v in shape[1])
+
+
 def tweak(rnd, shape):
     """New geometry derived from an old region: grown/shrunk/shifted by {0, +-ulp-ish, +-1e-9, +-1e-3, +-1}, or another type."""
+    new = tweak_finite(rnd, shape)
+    if rnd.random() < 0.06:
+        # the API does not validate numbers: NaN compares false with everything, infinities are legal floats
+        p = list(new[1])
+        p[rnd.randrange(len(p))] = rnd.choice(NONFINITE)
+        return (new[0], p)
+    return new
+
+
+def tweak_finite(rnd, shape):
     kind, p = shape
+    if not finite_shape(shape):
+        return rand_shape(rnd)
     d = lambda: rnd.choice(DELTAS)      # noqa: E731
     k = rnd.random()
     if kind == "rect":
@@ -268,9 +309,11 @@ def tweak(rnd, shape):
             return ("rect", [x1 + s, y1, x2 + s, y2])
         if k < 0.65:
             return ("rect", [x2 + abs(d()), y2 + d(), x1 - d(), y1 - abs(d())])       # unordered corners
-        # circumscribed circle (+ delta)
+        # circumscribed circle (+ delta), or a circle about one end that covers only part of the rectangle (a shrink)
         cx, cy = (x1 + x2) / 2.0, (y1 + y2) / 2.0
         r = math.hypot(x2 - cx, y2 - cy)
+        if k > 0.9:
+            return ("circ", [x1, y1, r * rnd.choice([0.5, 1.0, 1.5]) + abs(d())])
         return ("circ", [cx + rnd.choice([0, 0, d()]), cy, r + d()])
     cx, cy, r = p
     if k < 0.45:
@@ -289,6 +332,8 @@ def tweak(rnd, shape):
 def probes_for(shape):
     kind, p = shape
     pts = []
+    if not finite_shape(shape):
+        return pts
     if kind == "rect":
         x1, y1, x2, y2 = min(p[0], p[2]), min(p[1], p[3]), max(p[0], p[2]), max(p[1], p[3])
         xs = [x1, x2, (x1 + x2) / 2.0, math.nextafter(x1, math.inf), math.nextafter(x2, -math.inf)]
@@ -307,6 +352,16 @@ def probes_for(shape):
 def exact_margin(shape, px, py):
     """(signed exact margin, scale): margin >= 0 inside the closed region; for rect it is a length, for disc r^2-d^2."""
     kind, p = shape
+    if not finite_shape(shape):
+        # NaN anywhere: the region contains no point (every comparison is false); infinities: decided with float arithmetic,
+        # which is exact for comparisons against +-inf
+        if any(v != v for v in p):
+            return F(-1), F(1)
+        if kind == "rect":
+            inside = min(p[0], p[2]) <= px <= max(p[0], p[2]) and min(p[1], p[3]) <= py <= max(p[1], p[3])
+        else:
+            inside = p[2] >= math.hypot(px - p[0], py - p[1])
+        return (F(1), F(1)) if inside else (F(-1), F(1))
     if kind == "rect":
         x1, y1, x2, y2 = F(min(p[0], p[2])), F(min(p[1], p[3])), F(max(p[0], p[2])), F(max(p[1], p[3]))
         m = min(F(px) - x1, x2 - F(px), F(py) - y1, y2 - F(py))
@@ -412,7 +467,7 @@ class C12(Monitor):
             if isinstance(resp, tuple) and resp[1] == 409:
                 refused += (cmd == "updateExcludeRegion")
                 stats["c12_refused"] += 1
-                if after != before:
+                if repr(after) != repr(before):        # repr: NaN-aware comparison
                     bad(i, st, "refused-request-changed-the-list", "%r -> %r" % (before, after))
             elif resp is None and cmd == "updateExcludeRegion":
                 accepted += 1
@@ -427,11 +482,19 @@ class C12(Monitor):
                 # flipped (as observed through the real isPointExcluded): borderline only when exact arithmetic puts the point
                 # within 1e-9 relative of a border of an old or a new region, where float rounding may decide either way
                 near = False
-                for s in old_shapes + new_shapes:
+                was_in = False
+                for s in old_shapes:
+                    m, scale = exact_margin(s, x, y)
+                    if m >= 0:
+                        was_in = True          # inside or exactly on the border of the closed old region: certainly excluded
+                    elif -m <= F(1, 10 ** 9) * scale:
+                        near = True            # just outside by exact arithmetic: float rounding may have said "inside"
+                if was_in:
+                    near = False
+                for s in new_shapes:
                     m, scale = exact_margin(s, x, y)
                     if abs(m) <= F(1, 10 ** 9) * scale:
-                        near = True
-                        break
+                        near = True            # on the border of a new region: may legitimately go either way
                 if not near:
                     bad(i, st, "excluded-point-no-longer-excluded", "point (%r, %r) was excluded with regions %r and is not excluded "
                         "with regions %r; response %r" % (x, y, old_shapes, new_shapes, resp))
